@@ -15,6 +15,7 @@ mod c06;
 mod c07;
 mod c08;
 mod c10;
+mod c11;
 mod c12;
 mod c12_world;
 mod c13;
@@ -82,6 +83,7 @@ fn main() {
         "C07" => c07::run(tier),
         "C08" => c08::run(tier),
         "C10" => c10::run(tier),
+        "C11" => c11::run(tier),
         "C12" => c12::run(tier),
         "C13" => c13::run(tier),
         "C14" => c14::run(tier),
@@ -115,6 +117,7 @@ fn main() {
         "C07" => c07::replay(&sub, &v["witness"]),
         "C08" => c08::replay(&sub, &v["witness"]),
         "C10" => c10::replay(&sub, &v["witness"]),
+        "C11" => c11::replay(&sub, &v["witness"]),
         "C12" => c12::replay(&sub, &v["witness"]),
         "C13" => c13::replay(&sub, &v["witness"]),
         "C14" => c14::replay(&sub, &v["witness"]),
